@@ -308,6 +308,7 @@ def run(ctx):
     check_reinit(ctx, pool, 'R5')
     check_enqueue_callers(ctx, pool, run_f, cl)
     check_redistribution(ctx, cl, 'R1')
+    check_redistribution_progress(ctx, cl, 'R1')
     check_enqueue_verdict(ctx, pool, cl, N, 'R1')
 
     # ---------------------------------------------------------------- R5 verdict, loop condition, guard reset
@@ -411,9 +412,35 @@ def check_redistribution(ctx, cl, rule):
                     break
         idle_vars = [st.targets[0].id for st in walk_local(lp) if isinstance(st, ast.Assign) and isinstance(st.targets[0], ast.Name) and isinstance(st.value, ast.Call)
                      and isinstance(st.value.func, ast.Name) and 'get_next_idle_worker' in cl and st.value.func.id == cl.n('get_next_idle_worker')]
-        ok2 = bool(idle_vars) and all(c == f'{idle_vars[0]} is None' for c in conds)
+        # (a second early exit on "this offer made no progress" - a test of the result of try_enqueue or of the length of the retry list - is what a repair of
+        # F36 would add; it is accepted)
+        res_vars = {st.targets[0].id for st in walk_local(lp) if isinstance(st, ast.Assign) and isinstance(st.targets[0], ast.Name) and isinstance(st.value, ast.Call)
+                    and isinstance(st.value.func, ast.Name) and st.value.func.id == cl.n('try_enqueue')}
+        progress = lambda c: any(v in c.split() or f'not {v}' == c for v in res_vars) or 'len(self._retries)' in c
+        ok2 = bool(idle_vars) and all(c == f'{idle_vars[0]} is None' or progress(c) for c in conds)
         ctx.check(rule, 'the redistribution loop only stops early when no idle live worker is left', ok2, 'Pool.run.<handle_death>', 'redistribution-early-exit:' + ';'.join(conds),
                   f'the redistribution loop can stop on {conds} while retried inputs and idle workers remain', where=loc(hd, lp))
+
+
+def check_redistribution_progress(ctx, cl, rule):
+    """The redistribution loop of handle_death terminates only if every iteration either shrinks the retry list or leaves the loop.  try_enqueue can come
+    back without having enqueued anything - the user's enqueue function refused the pair, and handle_unused_data put the input back at the head of the
+    list - so a loop that drops the answer of try_enqueue and re-evaluates `while self._retries` with the same idle worker never ends (F36)."""
+    hd, te = cl['handle_death'], cl['try_enqueue']
+    loops = [n for n in walk_local(hd.node) if isinstance(n, ast.While) and any(isinstance(c.func, ast.Name) and c.func.id == te.name for c in calls_in(n))]
+    if not loops:
+        return
+    lp = loops[0]
+    # does try_enqueue have a way back that re-inserts what it took? (the refusal path: enqueue_fn answered false -> handle_unused_data -> return)
+    hu = cl['handle_unused_data'].name
+    refusal = [st for st in walk_local(te.node) if isinstance(st, ast.If) and any(isinstance(c.func, ast.Name) and c.func.id == 'enqueue_fn' for c in calls_in(st.test))
+               and any(isinstance(c.func, ast.Name) and c.func.id == hu for x in st.body + st.orelse for c in calls_in(x))]
+    dropped = [st for st in walk_local(lp) if isinstance(st, ast.Expr) and isinstance(st.value, ast.Call) and isinstance(st.value.func, ast.Name) and st.value.func.id == te.name]
+    ctx.check(rule, 'the redistribution loop of handle_death notices an offer that made no progress (a refused (worker, input) pair goes back to the head of the retry list)',
+              not (refusal and dropped), 'Pool.run.<handle_death>', 'redistribution-ignores-a-refused-offer',
+              'handle_death calls try_enqueue(idle) in `while self._retries` and drops its answer: when the user\'s enqueue function refuses the input at the head of the retry '
+              'list for the only idle worker, the input goes back to the head, the loop finds the same worker and the same input again, and Pool.run never returns',
+              where=loc(hd, dropped[0]) if dropped else loc(hd, lp))
 
 
 def check_single_append(ctx, run_f, cl, N, rule):
